@@ -23,11 +23,15 @@ type World struct {
 	// LibProver: honest proofs over such files are built by the library's own provers
 	Sectors   int
 	LibProver bool
+	// Sparse holds virtual files (zero except for a few marked leaves) of any committed size up to 2^64-1 bytes;
+	// Huge: contract formation sometimes commits to such a file
+	Sparse map[types.Hash256]*ref.SparseFile
+	Huge   bool
 }
 
 // NewWorld registers the pool's standard locks.
 func NewWorld() *World {
-	w := &World{Locks: map[types.Address]Lock{}, Files: map[types.Hash256][]byte{}}
+	w := &World{Locks: map[types.Address]Lock{}, Files: map[types.Hash256][]byte{}, Sparse: map[types.Hash256]*ref.SparseFile{}}
 	for k := 0; k < NumKeys; k++ {
 		w.Reg(MakeLock(LockSpec{Kind: 0, K1: k}))
 		w.Reg(MakeLock(LockSpec{Kind: NumV1Kinds, K1: k}))
@@ -459,6 +463,53 @@ func (b *Builder) drawFile(name string) ([]byte, types.Hash256) {
 	return data, root
 }
 
+// drawHugeFile commits to a virtual file whose size sits on an edge of the 64-bit size arithmetic: within 64 bytes of
+// 2^64 (the leaf count rounds up to 2^58), around 2^63 and 2^32 leaves, and non-power-of-two leaf counts in between.
+// A handful of leaves (first, last, and pseudo-random positions) carry data, so that the two halves of every upper
+// level of the tree differ and a proof for one position is not by accident a proof for another.
+func (b *Builder) drawHugeFile(name string) (uint64, types.Hash256) {
+	t := b.T
+	var size uint64
+	switch rapid.IntRange(0, 5).Draw(t, name+"hugeClass") {
+	case 0:
+		size = ^uint64(0) - uint64(rapid.IntRange(0, 62).Draw(t, name+"hugeTop")) // numLeaves = 2^58, partial last leaf
+	case 1:
+		size = ^uint64(0) - 63 - uint64(rapid.IntRange(0, 130).Draw(t, name+"hugeTop2")) // around the last whole leaf
+	case 2:
+		size = 1<<63 + uint64(rapid.IntRange(0, 200).Draw(t, name+"huge63")) - 100
+	case 3:
+		size = 64<<32 + uint64(rapid.IntRange(0, 200).Draw(t, name+"huge32")) - 100 // about 2^32 leaves
+	case 4:
+		size = uint64(rapid.Uint64Range(1<<40, 1<<62).Draw(t, name+"hugeAny"))
+	default:
+		size = 64 * (uint64(1)<<uint(rapid.IntRange(20, 57).Draw(t, name+"hugePow")) + uint64(rapid.IntRange(0, 2).Draw(t, name+"hugePm")) - 1)
+	}
+	n := ref.NumLeaves64(size)
+	seed := rapid.Byte().Draw(t, name+"hugeSeed")
+	marks := map[uint64][64]byte{}
+	content := func(i uint64) (c [64]byte) {
+		h1 := sha256.Sum256([]byte{seed, 1, byte(i), byte(i >> 8), byte(i >> 16), byte(i >> 24), byte(i >> 32), byte(i >> 40), byte(i >> 48), byte(i >> 56)})
+		h2 := sha256.Sum256(h1[:])
+		copy(c[:32], h1[:])
+		copy(c[32:], h2[:])
+		if i == n-1 && size%64 != 0 {
+			for j := size % 64; j < 64; j++ {
+				c[j] = 0 // bytes past the end of the file are zero
+			}
+		}
+		return c
+	}
+	for _, i := range []uint64{0, n - 1, n / 2, n/2 - 1, n / 3, n / 5 * 4, n>>7 + 1} {
+		if i < n {
+			marks[i] = content(i)
+		}
+	}
+	f := ref.NewSparseFile(size, marks)
+	root := types.Hash256(f.Root())
+	b.W.Sparse[root] = f
+	return size, root
+}
+
 // V1Form creates a v1 file contract.
 func (b *Builder) V1Form() bool {
 	if !b.v1Allowed() {
@@ -479,13 +530,18 @@ func (b *Builder) V1Form() bool {
 		return false
 	}
 	data, root := b.drawFile("v1form")
+	filesize := uint64(len(data))
+	if b.W.Huge && rapid.IntRange(0, 5).Draw(t, "v1formHuge") == 0 {
+		filesize, root = b.drawHugeFile("v1form")
+		b.label("huge-file")
+	}
 	ws := b.Child + uint64(rapid.IntRange(0, 5).Draw(t, "ws"))
 	we := ws + uint64(rapid.IntRange(1, 4).Draw(t, "we"))
 	owner := b.W.Reg(MakeLock(LockSpec{Kind: rapid.SampledFrom([]int{0, 1, 3, 4}).Draw(t, "fcLockKind"), K1: rapid.IntRange(0, NumKeys-1).Draw(t, "fck1"), K2: rapid.IntRange(0, NumKeys-1).Draw(t, "fck2")}))
 	vp := split(t, "valid", validSum, 2)
 	mp := split(t, "missed", validSum, rapid.IntRange(2, 3).Draw(t, "nMissed"))
 	fc := types.FileContract{
-		Filesize: uint64(len(data)), FileMerkleRoot: root, WindowStart: ws, WindowEnd: we, Payout: cur(payout),
+		Filesize: filesize, FileMerkleRoot: root, WindowStart: ws, WindowEnd: we, Payout: cur(payout),
 		UnlockHash: owner.Address(), RevisionNumber: uint64(rapid.IntRange(0, 3).Draw(t, "rev0")),
 	}
 	for i, p := range vp {
@@ -575,6 +631,15 @@ func (b *Builder) V1Revise() bool {
 
 // V1ProofFor builds the honest storage proof transaction for contract e in the child block.
 func (b *Builder) V1ProofFor(e types.FileContractElement, windowID types.BlockID) (types.Transaction, bool) {
+	if sf, ok := b.W.Sparse[e.FileContract.FileMerkleRoot]; ok && sf.Size == e.FileContract.Filesize {
+		sp := types.StorageProof{ParentID: e.ID}
+		leaf, path := sf.Proof(ref.ChallengeIndex(sf.Size, windowID, e.ID))
+		sp.Leaf = leaf
+		for _, h := range path {
+			sp.Proof = append(sp.Proof, types.Hash256(h))
+		}
+		return types.Transaction{StorageProofs: []types.StorageProof{sp}}, true
+	}
 	data, ok := b.W.Files[e.FileContract.FileMerkleRoot]
 	if !ok || uint64(len(data)) != e.FileContract.Filesize {
 		return types.Transaction{}, false
@@ -658,6 +723,9 @@ func (b *Builder) V1Prove() bool {
 	}
 	if b.W.LibProver && IsSectorFile(b.W.Files[e.FileContract.FileMerkleRoot]) {
 		b.label(fmt.Sprintf("v1-proof-by-library-prover-over-%d-sectors", e.FileContract.Filesize/SectorSize))
+	}
+	if _, ok := b.W.Sparse[e.FileContract.FileMerkleRoot]; ok {
+		b.label("v1-proof-of-huge-file")
 	}
 	b.finishV1(txn)
 	return true
@@ -821,8 +889,17 @@ func (b *Builder) drawV2Contract(name string) types.V2FileContract {
 	missed := new(big.Int).Mul(host, big.NewInt(int64(rapid.IntRange(0, 1000).Draw(t, name+"missed"))))
 	missed.Quo(missed, big.NewInt(1000))
 	ph := b.Child + uint64(rapid.IntRange(0, 5).Draw(t, name+"ph"))
+	filesize, capacity := uint64(len(data)), uint64(len(data))+uint64(rapid.IntRange(0, 128).Draw(t, name+"slack"))
+	if b.W.Huge && rapid.IntRange(0, 5).Draw(t, name+"Huge") == 0 {
+		filesize, root = b.drawHugeFile(name)
+		capacity = filesize
+		if rapid.Bool().Draw(t, name+"HugeCapMax") {
+			capacity = ^uint64(0)
+		}
+		b.label("huge-file")
+	}
 	fc := types.V2FileContract{
-		Capacity: uint64(len(data)) + uint64(rapid.IntRange(0, 128).Draw(t, name+"slack")), Filesize: uint64(len(data)), FileMerkleRoot: root,
+		Capacity: capacity, Filesize: filesize, FileMerkleRoot: root,
 		ProofHeight: ph, ExpirationHeight: ph + uint64(rapid.IntRange(1, 4).Draw(t, name+"exp")),
 		RenterOutput:    types.SiacoinOutput{Value: cur(renter), Address: b.drawLock(name+"renterAddr", false).Address()},
 		HostOutput:      types.SiacoinOutput{Value: cur(host), Address: b.drawLock(name+"hostAddr", false).Address()},
@@ -933,6 +1010,16 @@ func (b *Builder) V2ProofFor(e types.V2FileContractElement) (types.V2FileContrac
 	if fc.ProofHeight >= uint64(len(b.C.Store.CI)) {
 		return types.V2FileContractResolution{}, false
 	}
+	if sf, ok := b.W.Sparse[fc.FileMerkleRoot]; ok && sf.Size == fc.Filesize {
+		ci := b.C.Store.CI[fc.ProofHeight].Copy()
+		sp := &types.V2StorageProof{ProofIndex: ci}
+		leaf, path := sf.Proof(ref.ChallengeIndex(sf.Size, ci.ChainIndex.ID, e.ID))
+		sp.Leaf = leaf
+		for _, h := range path {
+			sp.Proof = append(sp.Proof, types.Hash256(h))
+		}
+		return types.V2FileContractResolution{Parent: e.Copy(), Resolution: sp}, true
+	}
 	data, ok := b.W.Files[fc.FileMerkleRoot]
 	if !ok || uint64(len(data)) != fc.Filesize {
 		return types.V2FileContractResolution{}, false
@@ -996,6 +1083,9 @@ func (b *Builder) V2Resolve() bool {
 		}
 		if b.W.LibProver && IsSectorFile(b.W.Files[fc.FileMerkleRoot]) {
 			b.label(fmt.Sprintf("v2-proof-by-library-prover-over-%d-sectors", fc.Filesize/SectorSize))
+		}
+		if _, ok := b.W.Sparse[fc.FileMerkleRoot]; ok {
+			b.label("v2-proof-of-huge-file")
 		}
 	case "expire":
 		txn.FileContractResolutions = []types.V2FileContractResolution{{Parent: e.Copy(), Resolution: &types.V2FileContractExpiration{}}}
